@@ -411,6 +411,9 @@ def method_call(name, args):
     return res
 
 
+POLY_CHAINS = {"compare<": lambda v: v < 0, "compare<=": lambda v: v <= 0, "compare=": lambda v: v == 0, "compare>": lambda v: v > 0, "compare>=": lambda v: v >= 0}
+
+
 def expected(line):
     """protocol line -> expected result string, or None (no claim)"""
     tok = line.split()
@@ -454,6 +457,17 @@ def expected(line):
             raise Err("nomethod")
         if op.startswith("m:"):
             return method_call(op[2:], args)
+        if op in POLY_CHAINS:
+            # (compare< a b c ...): every adjacent pair in order of *mathematical value* (exact rationals, +-inf), left to right,
+            # first failure decides
+            for a, b in zip(args, args[1:]):
+                r = binary("compare", a, b)
+                if r is None:
+                    return None
+                v = b2f(int(r[2:], 16))
+                if not POLY_CHAINS[op](v):
+                    return "b:0"
+            return "b:1"
         if len(args) > 2:
             return variadic(op, args)
         if len(args) == 1:
@@ -635,6 +649,36 @@ def gen_lines(rng, per_combo, n_random, n_ieee=100000):
                     toks.append(P.fmt(t, rng.choice(small[t])))
                 else:
                     toks.append(rnd_operand(t))
+            lines.append("%s %s" % (op, " ".join(toks)))
+    # polymorphic chains: 2..5 operands, numbers / s64 / u64 mixed, values close to each other (sorted runs with perturbations)
+    for op in POLY_CHAINS:
+        for _ in range(max(150, per_combo)):
+            n = rng.range(2, 5)
+            base = rng.choice(core_ints() + [0, 1, 5, 1 << 53, (1 << 63) - 2, -(1 << 63) + 1, (1 << 64) - 3])
+            vals = []
+            v = base
+            for i in range(n):
+                vals.append(v)
+                step = rng.choice([0, 0, 1, 1, 1, -1, 2, 1 << 10, 1 << 53])
+                v = v + (step if op in ("compare<", "compare<=", "compare=") else -step)
+            toks = []
+            for v in vals:
+                t = rng.choice("nsu" if rng.chance(9, 10) else "t")
+                if t == "s" and not (-S63 <= v < S63):
+                    t = "u" if 0 <= v < M64 else "n"
+                if t == "u" and not (0 <= v < M64):
+                    t = "s" if -S63 <= v < S63 else "n"
+                if t == "n":
+                    f = float(v)
+                    if rng.chance(1, 6):
+                        f = math.nextafter(f, math.inf if rng.chance(1, 2) else -math.inf)
+                    if rng.chance(1, 40):
+                        f = rng.choice([math.inf, -math.inf, math.nan, -0.0, 0.5])
+                    toks.append("n:%016x" % f2b(f))
+                elif t == "t":
+                    toks.append("t:%d" % v)
+                else:
+                    toks.append("%s:%d" % (t, v))
             lines.append("%s %s" % (op, " ".join(toks)))
     for name in ["+", "-", "*", "/", "%", "mod", "div", "&", "|", "^", "<<", ">>", "r+", "r-", "r*", "r/", "r%", "rmod", "rdiv", "r&", "r|", "r^", "r<<"]:
         for _ in range(max(30, per_combo // 6)):
